@@ -391,6 +391,53 @@ fn one_case(ctx: &Ctx, case: u64, l: &mut Local) {
     if in_order && !discs.is_empty() {
         l.count("salts.in-order");
     }
+    // "in order" is the order of the claims in the DOCUMENT (what any two implementations fed the
+    // same salts can agree on): the k-th salt / k-th issued disclosure belongs to the k-th hidden
+    // claim of a depth-first walk in member order, the claims inside a hidden value before the
+    // hidden claim itself
+    if issued.loc.complaints.is_empty() && discs.len() == n_sd {
+        fn walk(v: &Value, p: &mut gen::Path, sd: &std::collections::BTreeSet<gen::Path>, out: &mut Vec<gen::Path>) {
+            match v {
+                Value::Object(m) => {
+                    for (k, c) in m {
+                        p.push(gen::Step::K(k.clone()));
+                        walk(c, p, sd, out);
+                        if sd.contains(p) {
+                            out.push(p.clone());
+                        }
+                        p.pop();
+                    }
+                }
+                Value::Array(a) => {
+                    for (i, c) in a.iter().enumerate() {
+                        p.push(gen::Step::I(i));
+                        walk(c, p, sd, out);
+                        if sd.contains(p) {
+                            out.push(p.clone());
+                        }
+                        p.pop();
+                    }
+                }
+                _ => {}
+            }
+        }
+        let mut expected: Vec<gen::Path> = vec![];
+        walk(&s.u, &mut vec![], &s.strat.sd, &mut expected);
+        let got: Vec<Option<&gen::Path>> = discs.iter().map(|d| issued.loc.map.iter().find(|(_, x)| *x == d).map(|(p, _)| p)).collect();
+        let same = expected.len() == got.len() && expected.iter().zip(got.iter()).all(|(e, g)| *g == Some(e));
+        if same {
+            l.count("salts.assigned-in-document-order");
+        } else if discs.iter().collect::<std::collections::HashSet<_>>().len() == discs.len() {
+            let first_bad = expected.iter().zip(got.iter()).position(|(e, g)| *g != Some(e)).unwrap_or(0);
+            l.violate(Violation {
+                subcheck: "salt-order".into(),
+                class: format!("{class}: document order"),
+                observed: format!("queued salt {first_bad} went to another claim than the {first_bad}-th hidden claim in document order"),
+                case,
+                detail: json!({"input": input(), "expected_claim": expected.get(first_bad).map(gen::path_str), "got_claim": got.get(first_bad).and_then(|g| g.map(gen::path_str))}),
+            });
+        }
+    }
     // structure + values (C05 locator) and the C01 oracle through holder + verifier
     let bad = check_issued(case, &s, &issued, l, &input);
     if bad == 0 {
